@@ -96,6 +96,9 @@ func multiPolygon(s simplifier, mp orb.MultiPolygon) orb.MultiPolygon {
 	count := 0
 	for i := range mp {
 		p := polygon(s, mp[i])
+		if len(p) == 0 {
+			continue
+		}
 		if len(p[0]) <= 2 {
 			continue
 		}
